@@ -21,7 +21,9 @@ SEED = int(os.environ.get("VERIF_SEED", "1") or "1")
 REPO = os.environ.get("VERIF_REPO", "/repo")
 VERIF = os.environ.get("VERIF_DIR", os.path.dirname(os.path.abspath(__file__)))
 GO = os.environ.get("VERIF_GO", "go")
-CLI = os.path.join(VERIF, ".build", "dt-cli")
+RACE = os.environ.get("VERIF_C13_RACE") == "1"  # C14 job: the CLI is built with -race; the oracle is "no race report"
+CLI = os.path.join(VERIF, ".build", "dt-cli-race" if RACE else "dt-cli")
+PROP = "C14" if RACE else "C13"
 PFX = "vf%d" % os.getpid()
 
 
@@ -42,7 +44,10 @@ def build_cli():
     env.pop("GOSUMDB", None)
     sum_path = os.path.join(REPO, "go.sum")
     before = open(sum_path, "rb").read() if os.path.exists(sum_path) else None
-    p = subprocess.run([GO, "build", "-tags", "verif", "-o", CLI, "."], cwd=REPO, env=env, stdout=subprocess.PIPE, stderr=subprocess.STDOUT, text=True)
+    cmd = [GO, "build", "-tags", "verif", "-o", CLI, "."]
+    if RACE:
+        cmd.insert(2, "-race")
+    p = subprocess.run(cmd, cwd=REPO, env=env, stdout=subprocess.PIPE, stderr=subprocess.STDOUT, text=True)
     if before is not None and open(sum_path, "rb").read() != before:
         open(sum_path, "wb").write(before)
     if p.returncode != 0:
@@ -109,6 +114,9 @@ class Topo:
                 if 1 <= k <= self.n:
                     # suppress only the router's own (locally generated) traffic towards the client
                     self.ns(k, "ip rule add iif lo to 10.%d.0.0/24 blackhole" % self.net)
+            if self.spec.get("dest_filtered"):
+                # the destination silently drops everything it would send back (a filtering firewall): no reply of any kind
+                self.ns(self.n + 1, "ip route add blackhole 10.%d.0.0/24" % self.net)
             if self.spec.get("tcp_sack_off"):
                 self.ns(self.n + 1, "sysctl -qw net.ipv4.tcp_sack=0")
             if self.spec.get("port_open"):
@@ -143,14 +151,16 @@ class Topo:
             cmd += ["--tcp-method", method]
         cmd.append(self.dest_addr())
         t0 = time.time()
-        p = subprocess.run(["ip", "netns", "exec", self.names[0]] + cmd, stdout=subprocess.PIPE, stderr=subprocess.PIPE, text=True, timeout=120)
+        env = dict(os.environ, GORACE="halt_on_error=1 exitcode=66")
+        p = subprocess.run(["ip", "netns", "exec", self.names[0]] + cmd, stdout=subprocess.PIPE, stderr=subprocess.PIPE, text=True, timeout=180, env=env)
         doc = None
         if p.returncode == 0:
             try:
                 doc = json.loads(p.stdout)
             except Exception:
                 doc = None
-        return {"rc": p.returncode, "doc": doc, "stderr": p.stderr[-1500:], "wall": time.time() - t0, "cmd": " ".join(cmd)}
+        return {"rc": p.returncode, "doc": doc, "stderr": p.stderr[-1500:], "wall": time.time() - t0, "cmd": " ".join(cmd),
+                "race": "WARNING: DATA RACE" in p.stderr or p.returncode == 66, "race_report": p.stderr[:2500] if "DATA RACE" in p.stderr else ""}
 
 
 def expected_hops(t, max_ttl):
@@ -160,9 +170,11 @@ def expected_hops(t, max_ttl):
         if k > max_ttl:
             break
         hops.append(None if k in silent else t.router_addr(k))
-    reached = max_ttl >= t.n + 1
+    reached = max_ttl >= t.n + 1 and not t.spec.get("dest_filtered")
     if reached:
         hops.append(t.dest_addr())
+    elif t.spec.get("dest_filtered"):
+        hops += [None] * (max_ttl - len(hops))
     return hops, reached
 
 
@@ -170,8 +182,13 @@ def check_result(t, proto, method, max_ttl, queries, e2e, res):
     """returns list of violation strings"""
     bad = []
     spec = t.spec
+    if RACE:
+        # the race detector is the only oracle in this mode
+        if res.get("race"):
+            bad.append("the race detector reported a data race in the CLI running over real sockets:\n" + res.get("race_report", "")[:1800])
+        return bad
     sack_like = proto == "tcp" and method in ("sack", "prefer_sack")
-    sack_possible = spec.get("port_open") and not spec.get("tcp_sack_off")
+    sack_possible = spec.get("port_open") and not spec.get("tcp_sack_off") and not spec.get("dest_filtered")
     if proto == "tcp" and method == "sack" and not sack_possible:
         if res["rc"] == 0:
             bad.append("method sack succeeded although the target cannot do SACK (port_open=%s tcp_sack_off=%s)" % (spec.get("port_open"), spec.get("tcp_sack_off")))
@@ -218,6 +235,9 @@ def gen_spec(rng, idx):
             "concurrent_cli": rng.random() < 0.3}
     if spec["tcp_sack_off"]:
         spec["port_open"] = True
+    if rng.random() < 0.2:
+        spec["dest_filtered"] = True
+        spec["max_ttl_delta"] = rng.choice([1, 2])
     return spec
 
 
@@ -240,7 +260,8 @@ def run_topology(idx, spec):
             # real kernel, real time, shared machine: a single lost or late packet is not a property violation.
             # A mismatch is reported only if it repeats in 3 of 3 attempts (a defect in the tool is deterministic
             # for a given topology; packet loss under load is not). Retries are counted in the evidence.
-            while bad and attempts < 3:
+            cli_failed = (res["rc"] != 0 and not (proto == "tcp" and method == "sack")) or RACE
+            while bad and attempts < 3 and not cli_failed:
                 attempts += 1
                 time.sleep(0.2)
                 res2 = t.trace(proto, method, max_ttl, spec["queries"], spec["e2e"], max(spec["timeout_ms"], 500))
@@ -266,7 +287,7 @@ def run_topology(idx, spec):
 
 
 def nontrivial(spec):
-    return spec["routers"] >= 2 and (bool(spec["silent"]) or not spec["port_open"] or spec["tcp_sack_off"] or spec["queries"] > 1 or spec.get("concurrent_cli"))
+    return spec["routers"] >= 2 and (bool(spec["silent"]) or not spec["port_open"] or spec["tcp_sack_off"] or spec.get("dest_filtered") or spec["queries"] > 1 or spec.get("concurrent_cli"))
 
 
 def shrink(idx, spec):
@@ -321,9 +342,19 @@ def main():
         if len(specs) > 1:
             specs[1] = {"routers": 2, "port": 8080, "port_open": True, "tcp_sack_off": True, "silent": [], "max_ttl_delta": 0, "queries": 1, "e2e": 1,
                         "protos": ["tcp:sack", "tcp:prefer_sack", "tcp:syn", "udp"], "timeout_ms": 400, "concurrent_cli": True}
+        if len(specs) > 3:
+            specs[3] = {"routers": 2, "port": 443, "port_open": True, "tcp_sack_off": False, "silent": [], "max_ttl_delta": 1, "queries": 1, "e2e": 1, "dest_filtered": True,
+                        "protos": ["tcp:prefer_sack", "tcp:sack", "tcp:syn", "udp", "icmp"], "timeout_ms": 300, "concurrent_cli": False}
         if len(specs) > 2:
             specs[2] = {"routers": 4, "port": 80, "port_open": False, "tcp_sack_off": False, "silent": [1, 3], "max_ttl_delta": -1, "queries": 3, "e2e": 1,
                         "protos": ["tcp:syn", "tcp:prefer_sack", "icmp", "udp"], "timeout_ms": 300, "concurrent_cli": False}
+    if RACE and not replay:
+        n = 2 if TIER == "quick" else 8
+        rng = random.Random(SEED * 31 + 5)
+        specs = []
+        for i in range(n):
+            specs.append({"routers": rng.choice([2, 3]), "port": 443, "port_open": True, "tcp_sack_off": False, "silent": [], "max_ttl_delta": 1, "queries": 3, "e2e": 3,
+                          "protos": ["icmp", "udp", "tcp:syn", "tcp:sack"], "timeout_ms": 400, "concurrent_cli": False})
     results = []
     infra_err = None
     workers = 4
@@ -347,7 +378,7 @@ def main():
     nts = [r for r in results if nontrivial(r["spec"])]
     distinct = len({json.dumps(r["spec"], sort_keys=True) + rr["proto"] + rr["method"] for r in nts for rr in r["results"]})
     failing = [r for r in results if r["violations"]]
-    stats = {"prop": "C13", "name": "C13Kernel", "evaluations": evals, "distinct_nontrivial": distinct, "hashes": [], "extra_distinct": distinct,
+    stats = {"prop": PROP, "name": "C13KernelRace" if RACE else "C13Kernel", "evaluations": evals, "distinct_nontrivial": distinct, "hashes": [], "extra_distinct": distinct,
              "labels": {}, "samples": [{"spec": r["spec"], "results": [{k: rr[k] for k in ("proto", "method", "max_ttl", "rc", "hops")} for rr in r["results"]]} for r in results[:3]],
              "rule": "generated topologies (seeded): chains of 1..6 network-namespace routers joined by veth pairs with the kernel's own forwarding/ICMP/TCP, destination with open / closed / SACK-disabled port, a subset of routers with their own ICMP suppressed, max-ttl below/at/above the path length, 1..3 runs and 0..3 e2e probes per invocation, several CLI processes at once; each (topology, protocol/method) CLI invocation of the binary built from the working tree is one evaluation; oracle = the topology itself (router chain then destination, silent routers as empty hops, RTT >= 0, e2e answered iff the destination is within max-ttl, sack fails / prefer_sack falls back when the target cannot do SACK); non-trivial = >= 2 routers and (a silent router, or a closed / SACK-disabled port, or > 1 concurrent run); distinct by (topology spec, protocol)",
              "assumptions": ["real kernel and real time in the loop (timeouts 300-500 ms); IPv4 only; first TTL is fixed at 1 by the CLI", "a mismatch counts only if it repeats in 3 of 3 attempts on the same topology (transient packet loss/latency on a shared machine is not a property violation); retried invocations are counted under label_counts"], "exhaustive": False, "excluded_known": 0, "known_findings_seen": [], "violations": len(failing)}
@@ -359,19 +390,21 @@ def main():
                 stats["labels"]["retried-after-transient-mismatch"] = stats["labels"].get("retried-after-transient-mismatch", 0) + 1
     if infra_err and not failing:
         stats["inconclusive"] = infra_err
-    json.dump(stats, open(os.path.join(OUT, "stats-C13Kernel-0.json"), "w"))
+    if RACE:
+        stats["rule"] = "real kernel path under the race detector: the CLI is built with -race and traces generated namespace topologies with 3 concurrent runs + 3 e2e probes per invocation for icmp, udp, tcp syn and tcp sack over real AF_PACKET/raw sockets; oracle: no race report (GORACE halt_on_error); each CLI invocation is one evaluation; non-trivial = >= 2 routers and > 1 concurrent run"
+    json.dump(stats, open(os.path.join(OUT, "stats-%s-0.json" % stats["name"]), "w"))
     if failing:
         first = failing[0]
         spec = first["spec"]
-        if not replay and os.environ.get("VERIF_C13_NOSHRINK") != "1":
+        if not replay and not RACE and os.environ.get("VERIF_C13_NOSHRINK") != "1":
             try:
                 spec = shrink(0, spec)
             except Exception:
                 pass
-        json.dump({"property": "C13", "test": "C13Kernel", "scenario": spec, "diffs": [{"prop": "C13", "sig": "topology-mismatch", "msg": v} for v in first["violations"][:6]],
-                   "results": first["results"]}, open(os.path.join(OUT, "failure-C13-0.json"), "w"), indent=1)
+        json.dump({"property": PROP, "test": stats["name"], "scenario": spec, "diffs": [{"prop": PROP, "sig": "race-report" if RACE else "topology-mismatch", "msg": v} for v in first["violations"][:6]],
+                   "results": first["results"]}, open(os.path.join(OUT, "failure-%s-0.json" % PROP), "w"), indent=1)
         for v in first["violations"][:6]:
-            print("C13 [topology-mismatch] %s" % v)
+            print("%s [%s] %s" % (PROP, "race-report" if RACE else "topology-mismatch", v))
         print("--- FAIL: C13Kernel (%d of %d topologies)" % (len(failing), len(results)))
         return 1
     if infra_err:
